@@ -879,7 +879,32 @@ func (fr *Frame) fieldFuncCall(s *State, f *ast.SelectorExpr, sel *types.Selecti
 		return nil, false
 	}
 	key := named.Obj().Pkg().Path() + "." + named.Obj().Name() + "." + sel.Obj().Name()
-	if fr.eng.fieldFuncs[key] != "hashconcat" {
+	mode := fr.eng.fieldFuncs[key]
+	if strings.HasPrefix(mode, "assigns") {
+		// a trusted frame for calls through this field: only the named heaps may change; results are unknown
+		fr.eval(s, f.X)
+		for _, a := range call.Args {
+			fr.eval(s, a)
+		}
+		fr.eng.assumptions["calls through "+key+" modify nothing but: "+strings.TrimSpace(strings.TrimPrefix(mode, "assigns"))+" (trusted frame for the function value stored in that field)"] = true
+		dummy := &Contract{Pkg: named.Obj().Pkg().Path()}
+		for _, d := range splitTop(strings.TrimPrefix(mode, "assigns"), ",") {
+			d = strings.TrimSpace(d)
+			if d == "" || d == "nothing" {
+				continue
+			}
+			hs, err := fr.eng.designatorHeaps(dummy, nil, d)
+			if err != nil || len(hs) == 0 {
+				fr.vc.failed = fmt.Errorf("fieldfunc %s: unsupported designator %q", key, d)
+				return fr.freshResults(s, fr.typeOf(call)), true
+			}
+			for hn, hsort := range hs {
+				s.havocHeap(hn, hsort)
+			}
+		}
+		return fr.freshResults(s, fr.typeOf(call)), true
+	}
+	if mode != "hashconcat" {
 		return nil, false
 	}
 	if call.Ellipsis.IsValid() {
